@@ -231,6 +231,22 @@ def csfBase (version : Nat) (cmds : List CsfCmd) : Bytes :=
 def csfBytes (version : Nat) (cmds : List CsfCmd) : Bytes :=
   padAlign (csfBase version cmds ++ encData cmds) HabConsts.csfSize
 
+/-! ## XMCD block (`XMCDHeader`, `SegXMCD`) -/
+/-- `XMCDHeader.export()`; the four byte expressions are the translated source (`Generated/HabFuns.lean`) -/
+def xmcdHdr (size type iface inst : Nat) : Bytes :=
+  [u8 (natOf (HabFuns.xmcdHdrByte0 size)), u8 (natOf (HabFuns.xmcdHdrByte1 type size)),
+   u8 (natOf (HabFuns.xmcdHdrByte2 iface inst)), u8 (natOf (HabFuns.xmcdHdrByte3 HabConsts.xmcdHeaderTag 0))]
+
+/-- `SegXMCD.parse(file).export()`: what `XmcdHabSegment.load_from_config` puts into the image -/
+def xmcdLoad (file : Bytes) : PyRes Bytes :=
+  match file with
+  | lo :: ts :: ii :: tv :: rest =>
+    if tv.toNat / 16 ≠ HabConsts.xmcdHeaderTag ∨ tv.toNat % 16 ≠ 0 then .error .spsdk
+    else if ii.toNat / 16 > 1 ∨ ts.toNat / 16 > 1 then .error .spsdk
+    else if (ts.toNat % 16) * 256 + lo.toNat ≠ file.length then .error .spsdk
+    else .ok (xmcdHdr (HabConsts.xmcdHeaderSize + rest.length) (ts.toNat / 16) (ii.toNat / 16) (ii.toNat % 16) ++ rest)
+  | _ => .error .other
+
 /-! ## configuration of one container -/
 structure Cfg where
   flags : Nat
@@ -257,7 +273,14 @@ def ivtSelf (c : Cfg) : Nat := ivtSelfN c.start c.ivtOff
 end Cfg
 
 structure Ivt where
-  version entry rs1 dcd bdt self csf rs2 : Nat
+  version : Nat
+  entry : Nat
+  rs1 : Nat
+  dcd : Nat
+  bdt : Nat
+  self : Nat
+  csf : Nat
+  rs2 : Nat
   deriving Repr, DecidableEq
 
 def Ivt.encode (v : Ivt) : Bytes :=
@@ -265,7 +288,9 @@ def Ivt.encode (v : Ivt) : Bytes :=
     le32 v.self ++ le32 v.csf ++ le32 v.rs2
 
 structure Bdt where
-  start length plugin : Nat
+  start : Nat
+  length : Nat
+  plugin : Nat
   deriving Repr, DecidableEq
 
 def Bdt.encode (b : Bdt) : Bytes := le32 b.start ++ le32 b.length ++ le32 b.plugin
@@ -309,7 +334,7 @@ def Cfg.mkBlock (c : Cfg) (off size : Nat) : Block :=
 
 /-- `_get_signed_blocks` (with `SegXMCD.size` = length of the exported XMCD) -/
 def Cfg.signedBlocks (c : Cfg) : List Block :=
-  [c.mkBlock HabConsts.ivtSegOffset (Spec.ivtSize + HabConsts.bdtSize)] ++
+  [c.mkBlock HabConsts.ivtSegOffset (HabConsts.ivt2Size + HabConsts.bdtSize)] ++
   (match c.dcd with | some d => [c.mkBlock dcdSegOffN d.length] | none => []) ++
   (match c.xmcd with | some x => [c.mkBlock HabConsts.xmcdSegOffset x.length] | none => []) ++
   (if isEnc c.flags then [] else [c.mkBlock c.appOff c.appBin.length])
@@ -356,18 +381,25 @@ structure Signer where
   data : Bytes → Bytes
   csf : Nat → Bytes → Bytes
 
+/-- one pass of the loop body: sign header+commands as they are now, install the new signature block -/
+def resign (s : Signer) (version i : Nat) (cmds : List CsfCmd) : List CsfCmd :=
+  mapAut (fun c => { c with data := some (sigBlob version (s.csf i (csfBase version cmds))) }) 0 cmds
+
+/-- 4-aligned size of the data block of the Authenticate CSF command -/
+def autSize (cmds : List CsfCmd) : Nat :=
+  match getAut 0 cmds with
+  | some c => alignUp (c.data.getD []).length 4
+  | none => 0
+
 /-- the loop of `CsfHabSegment.update_signature`: sign header+commands, repeat while the 4-aligned size of the
-    signature block changed (it moves every later data reference).  Fuel-bounded; `none` = fuel exhausted. -/
+    signature block changed (it moves every later data reference).  Fuel-bounded; `none` = fuel exhausted or no
+    Authenticate CSF command. -/
 def signLoop (s : Signer) (version : Nat) : Nat → Nat → List CsfCmd → Option (List CsfCmd × Nat)
   | 0, _, _ => none
   | fuel + 1, i, cmds =>
-    match getAut 0 cmds with
-    | none => none
-    | some cur =>
-      let before := alignUp (cur.data.getD []).length 4
-      let blob := sigBlob version (s.csf i (csfBase version cmds))
-      let cmds' := mapAut (fun c => { c with data := some blob }) 0 cmds
-      if alignUp blob.length 4 = before then some (cmds', i + 1) else signLoop s version fuel (i + 1) cmds'
+    if (getAut 0 cmds).isNone then none
+    else if autSize (resign s version i cmds) = autSize cmds then some (resign s version i cmds, i + 1)
+    else signLoop s version fuel (i + 1) (resign s version i cmds)
 
 structure Built where
   app : Bytes                   -- final application segment (ciphertext when encrypted)
@@ -377,39 +409,40 @@ structure Built where
   attempts : Nat
   deriving Repr
 
+/-- the padded image cut in front of the CSF, as `update_csf` collects it BEFORE encrypting / signing -/
+def img0 (c : Cfg) : Bytes :=
+  (imagePadded c c.appBin (some (csfBytes c.version c.cmds))).take (signedPrefixN c.ivtOff c.csfOff)
+
+/-- `CsfHabSegment.encrypt`: plaintext, AES-CCM output, its two halves, the updated Decrypt Data command -/
+def encPlain (c : Cfg) : Bytes := blocksData (img0 c) c.encryptedBlocks
+def encOut (cr : Crypto.CryptoOps) (c : Cfg) : Bytes := Crypto.ccmEnc cr c.dek c.nonce [] c.macLen (encPlain c)
+def encMac (cr : Crypto.CryptoOps) (c : Cfg) : Bytes := (encOut cr c).drop (encPlain c).length
+def encCt (cr : Crypto.CryptoOps) (c : Cfg) : Bytes := (encOut cr c).take (encPlain c).length
+def cmdsEnc (cr : Crypto.CryptoOps) (c : Cfg) : List CsfCmd :=
+  mapAut (fun x => { cmd := x.cmd.addBlocks (blockPairs c.encryptedBlocks),
+                     data := some (macBlob c.version c.nonce (encMac cr c)) }) 2 c.cmds
+
+/-- `CsfHabSegment.update_signature`, first half: the image-data message and the updated Authenticate Data command -/
+def signedMsg (c : Cfg) : Bytes := blocksData (img0 c) c.signedBlocks
+def cmdsSigned (s : Signer) (c : Cfg) (cmds1 : List CsfCmd) : List CsfCmd :=
+  mapAut (fun x => { cmd := x.cmd.addBlocks (blockPairs c.signedBlocks),
+                     data := some (sigBlob c.version (s.data (signedMsg c))) }) 1 cmds1
+
 /-- `HabContainer.update_csf` (after `load_from_config`); `none`: fuel of the sign loop exhausted or a required
     Authenticate Data command is missing (SPSDKValueError) -/
 def build (cr : Crypto.CryptoOps) (s : Signer) (fuel : Nat) (c : Cfg) : Option Built :=
-  if !c.hasCsf then some { app := c.appBin, cmds := [], msgData := [], msgCsf := [], attempts := 0 } else
-  let img0 := (imagePadded c c.appBin (some (csfBytes c.version c.cmds))).take (signedPrefixN c.ivtOff c.csfOff)
-  -- encrypt
-  let encR : Option (Bytes × List CsfCmd) :=
-    if isEnc c.flags then
-      match getAut 2 c.cmds with
-      | none => none
-      | some _ =>
-        let bl := c.encryptedBlocks
-        let plain := blocksData img0 bl
-        let e := Crypto.ccmEnc cr c.dek c.nonce [] c.macLen plain
-        let mac := e.drop plain.length
-        let ct := e.take plain.length
-        some (ct, mapAut (fun x => { cmd := x.cmd.addBlocks (blockPairs bl), data := some (macBlob c.version c.nonce mac) }) 2 c.cmds)
-    else some (c.appBin, c.cmds)
-  match encR with
-  | none => none
-  | some (app, cmds1) =>
+  if !c.hasCsf then some { app := c.appBin, cmds := [], msgData := [], msgCsf := [], attempts := 0 }
+  else if isEnc c.flags && (getAut 2 c.cmds).isNone then none
+  else
+    let app := if isEnc c.flags then encCt cr c else c.appBin
+    let cmds1 := if isEnc c.flags then cmdsEnc cr c else c.cmds
     if isAuth c.flags then
-      match getAut 1 cmds1 with
-      | none => none
-      | some _ =>
-        let bl := c.signedBlocks
-        let msgData := blocksData img0 bl
-        let cmds2 := mapAut (fun x => { cmd := x.cmd.addBlocks (blockPairs bl), data := some (sigBlob c.version (s.data msgData)) }) 1 cmds1
-        match signLoop s c.version fuel 0 cmds2 with
+      if (getAut 1 cmds1).isNone then none
+      else
+        match signLoop s c.version fuel 0 (cmdsSigned s c cmds1) with
         | none => none
         | some (cmds3, n) =>
-          some { app := app, cmds := cmds3, msgData := msgData,
-                 msgCsf := csfBase c.version cmds3, attempts := n }
+          some { app := app, cmds := cmds3, msgData := signedMsg c, msgCsf := csfBase c.version cmds3, attempts := n }
     else some { app := app, cmds := cmds1, msgData := [], msgCsf := [], attempts := 0 }
 
 /-- `HabContainer.export()` after `load_from_config` -/
@@ -505,7 +538,8 @@ def findAppOffset (d : Bytes) (entry : Nat) : List Nat → Option Nat
     if rv ≠ 0 ∧ (entry : Int) - HabConsts.resetVectorWindow ≤ rv ∧ rv < entry + d.length ∧ rv % 2 = 1
     then some off else findAppOffset d entry rest
 
-/-- `XMCDHeader.parse` + block size: `some bytes` when an XMCD block is recognised at 0x40 -/
+/-- `XMCDHeader.parse` + block size: `some bytes` when an XMCD block is recognised at 0x40; the segment is
+    re-exported from the parsed fields (`SegXMCD(header, data).export()`) -/
 def parseXmcd (d : Bytes) : PyRes (Option Bytes) :=
   match d.drop HabConsts.xmcdSegOffset with
   | lo :: ts :: ii :: tv :: rest =>
@@ -513,7 +547,8 @@ def parseXmcd (d : Bytes) : PyRes (Option Bytes) :=
     else if ii.toNat / 16 > 1 ∨ ts.toNat / 16 > 1 then .error .spsdk
     else
       let size := (ts.toNat % 16) * 256 + lo.toNat
-      .ok (some ([lo, ts, ii, tv] ++ rest.take (size - HabConsts.xmcdHeaderSize)))
+      let cfgData := rest.take (size - HabConsts.xmcdHeaderSize)
+      .ok (some (xmcdHdr (HabConsts.xmcdHeaderSize + cfgData.length) (ts.toNat / 16) (ii.toNat / 16) (ii.toNat % 16) ++ cfgData))
   | _ => .error .other
 
 /-- `HabContainer.parse`; segments in the order of `SEGMENTS_MAPPING` -/
